@@ -94,7 +94,12 @@ Definition sort_bits {A} (key : A -> N) (l : list A) : list A :=
                                                     | y :: t => if N.leb (key x) (key y) then x :: l else y :: ins t
                                                     end) acc) [] l.
 
-Definition enc_report (rep : report) (limit : N) : list N :=
+(* limits 100 + k: the consumer reads k items and then PANICS inside its loop (the panic is caught by the
+   caller); the reports and the hidden state must be exactly those of a partial read of k items *)
+Definition eff_limit (limit : N) : N := if N.leb 100 limit && N.ltb limit 255 then limit - 100 else limit.
+
+Definition enc_report (rep : report) (limit0 : N) : list N :=
+  let limit := eff_limit limit0 in
   match rep with
   | RAdded l => if N.ltb limit 255 then [N.min limit (lenN l)]
                 else lenN l :: concat (map (fun p => [fst p; snd p]) (sort_bits fst l))
